@@ -91,6 +91,7 @@ static void WrapSmallExhaustive(int64_t idx, Reporter &rep) {
   rep.count("wrap_small_tuples", n);
   rep.count("wrap_small_ranges");
   rep.held(vf::HashCombine(0x16a, idx), true);
+  if (idx % 997 == 0) rep.sample("{\"transform\":\"wrap\",\"min\":" + std::to_string(mn) + ",\"max\":" + std::to_string(mx) + ",\"tuples\":" + std::to_string(n) + ",\"exhaustive\":true}");
 }
 
 static int32_t NearPick(Rng &r, int32_t mn, int32_t mx) {
@@ -146,7 +147,7 @@ static void WrapRandom(Rng &r, Reporter &rep, int tuples) {
   rep.count("wrap_random_tuples", tuples);
   rep.count("wrap_random_ranges/" + cls);
   rep.held(vf::HashCombine(vf::HashCombine(0x16b, static_cast<uint32_t>(mn)), static_cast<uint32_t>(mx)), true);
-  if (r.below(2000) == 0) rep.sample("{\"transform\":\"wrap\",\"min\":" + std::to_string(mn) + ",\"max\":" + std::to_string(mx) + ",\"tuples\":" + std::to_string(tuples) + "}");
+  if (r.below(50) == 0) rep.sample("{\"transform\":\"wrap\",\"min\":" + std::to_string(mn) + ",\"max\":" + std::to_string(mx) + ",\"tuples\":" + std::to_string(tuples) + "}");
 }
 
 // ---- canonicalized octahedral transform ---------------------------------------------
@@ -274,6 +275,7 @@ static void OctSampled(Rng &r, Reporter &rep, int q, int tuples) {
   rep.count("octa_sampled_pairs", n);
   rep.count("octa_sampled_cases/q=" + std::to_string(q));
   rep.held(vf::HashCombine(0x16d00 + q, r.next()), true);
+  if (r.below(50) == 0) rep.sample("{\"transform\":\"octahedral-canonicalized\",\"q\":" + std::to_string(q) + ",\"pairs\":" + std::to_string(n) + "}");
 }
 
 int main(int argc, char **argv) {
